@@ -39,7 +39,78 @@ def scenarios(tier):
   return out
 
 
+def foreground_shutdown(chk):
+  """A server run in the foreground (run_until_shutdown() called by the owning thread, as a worker binary does - no
+  start()): spec/dist/ServerLife.tla with Foreground = TRUE says a requested shutdown is carried out only if stopping
+  the transport does not depend on self._thread.  Real threads, in-process transport: a request is blocked on a slow
+  generator, the shutdown is requested; the request must return and the transport must stop."""
+  import threading
+  import time
+  import types as pytypes
+  from harness import fakecourier
+  from ml_metrics._src.chainables import courier_server, lazy_fns
+  for snt, expect_ok in ((True, False), (False, True)):
+    r = tlc.run('dist', 'ServerLife', tlc.cfg_text(constants=dict(Scripts='<- mc_Scripts', MaxThreads=2, JoinFirst=True, Foreground=True, StopNeedsThread=snt),
+                                                   invariants=['OneServingThread', 'Settled'], deadlock=False),
+                mc_defs=dict(mc_Scripts='[a |-> <<"shutdown">>]'), timeout=600)
+    chk.add_tlc(r, f'ServerLife/foreground/StopNeedsThread={snt}')
+    if r.ok != expect_ok:
+      chk.machinery_failure(f'ServerLife.tla foreground, StopNeedsThread={snt}: expected {"ok" if expect_ok else "Settled to fail"}, got {r.error_name or "ok"}')
+  saved = (courier_server.courier, courier_server.signal, courier_server.CourierServer.__del__)
+  courier_server.courier = fakecourier
+  courier_server.signal = pytypes.SimpleNamespace(signal=lambda *a, **k: None, SIGINT=2, SIGTERM=15, SIGABRT=6)
+  courier_server.CourierServer.__del__ = lambda self: None
+  fakecourier.BOARD.reset()
+  try:
+    for prefetch in (1, 2):
+      srv = courier_server.PrefetchedCourierServer(f'fg-{prefetch}-{time.time_ns()}', prefetch_size=prefetch)
+      gate = threading.Event()
+
+      def slow():
+        yield 1
+        gate.wait(20)
+        yield 2
+
+      fg = threading.Thread(target=srv.run_until_shutdown, daemon=True)
+      fg.start()
+      t0 = time.time()
+      while not (srv._server is not None and srv._server.has_started) and time.time() - t0 < 3:
+        time.sleep(0.005)
+      srv._init_iterator(lazy_fns.trace(slow)())
+      box = {}
+
+      def request():
+        try:
+          box['first'] = lazy_fns.pickler.loads(srv._next_batch(1))
+          box['second'] = lazy_fns.pickler.loads(srv._next_batch(1))      # blocks: the generator waits for the gate
+        except Exception as e:  # pylint: disable=broad-exception-caught
+          box['error'] = repr(e)
+
+      rq = threading.Thread(target=request, daemon=True)
+      rq.start()
+      time.sleep(0.15)
+      srv._request_shutdown()
+      rq.join(3)
+      gate.set()          # the in-flight next() of the generator may finish now (the prefetch thread is joined by the shutdown)
+      fg.join(3)
+      transport_up = bool(srv._server is not None and srv._server.has_started)
+      chk.replayed()
+      ctx = dict(kind='foreground-shutdown', prefetch=prefetch, request_returned=not rq.is_alive(), serving_loop_ended=not fg.is_alive(),
+                 transport_up=transport_up, answers={k: repr(v)[:120] for k, v in box.items()})
+      gate.set()
+      if rq.is_alive():
+        chk.violation('foreground-server:shutdown:request-left-blocked',
+                      f'[prefetch={prefetch}] a next_batch request blocked on a slow generator is still blocked 3 s after the shutdown request '
+                      f'(serving loop ended: {not fg.is_alive()}, transport still up: {transport_up})', ctx)
+      elif transport_up:
+        chk.violation('foreground-server:shutdown:transport-left-running', f'[prefetch={prefetch}] the serving loop ended but the transport server was not stopped', ctx)
+  finally:
+    courier_server.courier, courier_server.signal, courier_server.CourierServer.__del__ = saved
+    fakecourier.BOARD.reset()
+
+
 def body(chk):
+  foreground_shutdown(chk)
   # 1. the specification itself
   mc = tlc.run('queue', 'Prefetch',
                tlc.cfg_text(constants=dict(MaxGens=2, MaxLen=2, Prefetch=1, MaxK=2, Reqs={'r1'}),
